@@ -2,6 +2,7 @@ SPECIFICATION Spec
 CONSTANTS
   MaxSessions = 3
   MaxMsgs = 2
+  MaxInc = 2
   Mutant = "connect_on_open"
 INVARIANTS Discipline SilenceAfterRemove
 CHECK_DEADLOCK FALSE
